@@ -2,6 +2,7 @@ package main
 
 import (
 	"fmt"
+	"github.com/coocood/freecache"
 	"os"
 	"sort"
 	"sync"
@@ -51,7 +52,9 @@ func gossipCmd(out *cq.Out, seed uint64, tier string) {
 	var cases []string
 	for ci := 0; ci < ncases; ci++ {
 		topo := gossip.NewTopology()
-		cache := &memCache{m: map[string][]byte{}}
+		// the cache an agent really has (gossip/options.go SetCache with the default size of gossip.DefaultConfig)
+		cache := freecache.NewCache(gossip.DefaultConfig().CacheSize)
+		delivered := map[int]bool{}
 		roleOf := map[int]int{} // current role of each name in the harness' view
 		known := map[int]bool{}
 		var ops, hist []string
@@ -129,8 +132,28 @@ func gossipCmd(out *cq.Out, seed uint64, tier string) {
 				ops = append(ops, fmt.Sprintf("GSend (%d)%%Z (%d)%%Z", ttl, after))
 			default:
 				d := rng.Intn(6)
-				b := &protocol.BatchSnapshots{Snapshots: []*protocol.SignedSnapshot{{Snapshot: &protocol.Snapshot{Version: uint64(d)}, Signature: []byte{byte(d)}}}}
+				// batch number d: realistic sizes (the sender batches up to 500 signed snapshots of ~320 encoded bytes)
+				nsn := []int{1, 3, 5, 20, 100, 500}[d]
+				b := &protocol.BatchSnapshots{}
+				for j := 0; j < nsn; j++ {
+					dg := func(tag byte) []byte {
+						x := make([]byte, 32)
+						x[0], x[1], x[2], x[31] = tag, byte(d), byte(j>>8), byte(j)
+						return x
+					}
+					sg := make([]byte, 64)
+					copy(sg, dg(9))
+					b.Snapshots = append(b.Snapshots, &protocol.SignedSnapshot{Snapshot: &protocol.Snapshot{EventDigest: dg(1), HistoryDigest: dg(2), HyperDigest: dg(3), Version: uint64(d*1000 + j)}, Signature: sg})
+				}
 				seen := gossip.VWasProcessed(cache, b)
+				if seen != delivered[d] {
+					if delivered[d] {
+						fail("batch-processed-twice", fmt.Sprintf("a batch of %d signed snapshots that was delivered before is processed again", nsn))
+					} else {
+						fail("batch-dropped", fmt.Sprintf("a batch of %d signed snapshots delivered for the first time is treated as already processed", nsn))
+					}
+				}
+				delivered[d] = true
 				ops = append(ops, fmt.Sprintf("GDeliver %d%%N %s", d, cq.Bool(seen)))
 				hist = append(hist, fmt.Sprintf("deliver(b%d)=%v", d, seen))
 				out.Case(fmt.Sprintf("deliver:%d:%d", ci, k), seen)
